@@ -262,6 +262,17 @@ pub const WHERE_PREDS: &[&str] = &[
     "Self: Clone",
     "Option<Self>: Clone",
     "dyn A + B: Tr",
+    "for<'b> Self: Tr<'b>",
+    "for<'b, 'c> &'b Self: Tr<'c>",
+    "for<'b,> Self: Copy",
+    "for<> Self: Copy",
+    "Vec<Self>: Clone",
+    "T: Tr<Self>",
+    "Self::Output: Copy",
+    "<Self as Add>::Output: Copy",
+    "for<'b> fn(&'b Self) -> Self: Copy",
+    "[Self; 2]: Default",
+    "Self: for<'b> Tr<'b> + ?Sized + 'static",
 ];
 pub const IDENTS: &[&str] = &[
     "r#type", "r#match", "r#fn", "H", "this", "other", "state", "to_index", "_self_0", "_0",
